@@ -282,7 +282,8 @@ class HttpBeaconClient:
         self.metadata.ver_major = ver_major
         self.metadata.ver_minor = ver_minor
         self.metadata.ver_build = ver_build
-        self.metadata.info = info.encode()
+        # the limit is in bytes: non-ASCII names encode to more bytes than characters
+        self.metadata.info = info.encode()[:51]
 
         self.c2http = C2Http(bconfig, aes_key=self.aes_key, hmac_key=self.hmac_key)
 
